@@ -174,6 +174,8 @@ class ChanMachine(ohist.Machine):
                 out += [("bulk_add", None), ("bulk_add", (5, 0)), ("bulk_add", (7, 7))]
             if len(model) >= 2:
                 out += [("bulk_remove", "items"), ("bulk_remove", "indices")]
+            if len(model) >= 2:   # dropping one pair by re-assigning a filtered view of the block itself (lazy or not)
+                out += [("filter", "gen-self"), ("filter", "gen-property"), ("filter", "list-self"), ("filter", "reversed")]
             out += [("assign", ((3, free[0]),)) if free else ("assign", ()), ("assign", ())]
             if len(free) >= 2:
                 out += [("assign", ((1, free[0]), (0, free[1]))), ("assign", ((2, free[0]), (2, free[1])))]
@@ -313,6 +315,25 @@ class ChanMachine(ohist.Machine):
                 if err is None:
                     raise self.V("taken-channel-accepted", f"platforms = {pairs} (duplicate channel) accepted: {after}", origin)
                 model = self.resync(before, after, [i for _, i in pairs], origin, allow_drop=True)
+        elif kind == "filter":
+            pairs_now = list(b.platforms)
+            drop = pairs_now[0][1]
+            if op[1] == "gen-self":
+                value = ((c, p) for c, p in b if p is not drop)
+                exp = model[1:]
+            elif op[1] == "gen-property":
+                value = ((c, p) for c, p in b.platforms if p is not drop)
+                exp = model[1:]
+            elif op[1] == "list-self":
+                value = [(c, p) for c, p in b if p is not drop]
+                exp = model[1:]
+            else:
+                value = reversed(b.platforms)
+                exp = list(reversed(model))
+            err = call(lambda: setattr(b, "platforms", value))
+            if err is not None:
+                raise self.V("assign-raises", f"platforms = <{op[1]} view of the block's own pairs>: {type(err).__name__}: {err}", origin)
+            model = exp
         elif kind == "assign_pd":
             i = free[0]
             err = call(lambda: setattr(b, "platforms", [self.lib_item(i)]))
